@@ -118,8 +118,9 @@ def main_wrap(name, main):
         sys.exit(3)
 
 
-def assigned_names(stmts):
-    """names assigned by a straight-line/if statement list, in order of first assignment"""
+def assigned_names(stmts, extra=None):
+    """names assigned by a straight-line/if statement list, in order of first assignment
+    (extra: hook of a generator for its own statement forms: statement -> list of names, or None)"""
     out = []
 
     def add(t):
@@ -132,13 +133,18 @@ def assigned_names(stmts):
         else:
             raise Reject("assignment target not understood: " + ast.unparse(t))
     for st in stmts:
-        if isinstance(st, ast.Assign):
+        more = extra(st) if extra is not None else None
+        if more is not None:
+            for n in more:
+                if n not in out:
+                    out.append(n)
+        elif isinstance(st, ast.Assign):
             for t in st.targets:
                 add(t)
         elif isinstance(st, ast.AugAssign):
             add(st.target)
         elif isinstance(st, ast.If):
-            for n in assigned_names(st.body) + assigned_names(st.orelse):
+            for n in assigned_names(st.body, extra) + assigned_names(st.orelse, extra):
                 if n not in out:
                     out.append(n)
         elif isinstance(st, ast.Expr) and isinstance(st.value, ast.Constant) and isinstance(st.value.value, str):
@@ -181,6 +187,10 @@ class Block:
         return None
 
     def special_stmt(self, st, rest, env, k):
+        return None
+
+    def special_assigned(self, st):
+        """names a statement form of the generator assigns (for the state of loops); None = not a special form"""
         return None
 
     def on_return(self, value, env):
@@ -490,7 +500,7 @@ class Block:
     def loop_parts(self, body, env, bound=()):
         """-> state names, their kinds (joined over entry and every path through the body), loop-local names,
         the environment inside the loop"""
-        names = assigned_names(body)
+        names = assigned_names(body, self.special_assigned)
         state = [n for n in names if n in env]
         local = [n for n in names if n not in env]
         if not state:
@@ -555,7 +565,7 @@ class Block:
         if l[0] != "intlist":
             raise Reject("for over something that is not a list of ints")
         x = st.target.id
-        if x in env or x in assigned_names(st.body):
+        if x in env or x in assigned_names(st.body, self.special_assigned):
             raise Reject("for loop variable %s is also an ordinary variable" % x)
         state, kinds, local, inner = self.loop_parts(st.body, env, bound=[(x, "int")])
         body = self.body_terms(st.body, inner, state, kinds)
